@@ -18,14 +18,14 @@ func init() {
 	register(&Check{
 		ID: "C09", Level: "exploration", Primary: "connections", EvalCount: "requests_tagged",
 		Rule: "16..256 concurrent clients run open / k requests of mixed operations / close / reconnect cycles against one long-lived server; every request carries the client-side connection tag in a DN; idle, " +
-			"malformed-frame and instantly-closed connections are interleaved (they consume IDs too), followed by connections that are upgraded with StartTLS in the middle, by a long-lifetime phase (70 000+ short connections next to one long-lived one) and by episodes in which Accept fails temporarily (descriptor exhaustion) between two tagged connections. Oracle: tag -> ConnectionID is a function (stable per connection) and injective over the whole server lifetime " +
+			"malformed-frame and instantly-closed connections are interleaved (they consume IDs too), followed by replacements of the server's router while connections are open, by connections that are upgraded with StartTLS in the middle, by a long-lifetime phase (70 000+ short connections next to one long-lived one) and by episodes in which Accept fails temporarily (descriptor exhaustion) between two tagged connections. Oracle: tag -> ConnectionID is a function (stable per connection) and injective over the whole server lifetime " +
 			"(never reused, even after close), IDs > 0, and the ID passed to OnClose after a tagged connection ended is the one its handlers saw, exactly once. " +
 			"distinct_nontrivial = distinct tagged connections that issued at least two requests and were closed and reported via OnClose",
 		Assume: []string{"a connection is identified client-side by the tag it puts into its requests"},
 		Phases: func(tier string, seed int64) []Phase {
 			return []Phase{{Name: "cycles", Run: c09Run}, {Name: "cycles-tls-listener", Run: c09Run, Arg: "tls"}}
 		},
-		MinObserved: []string{"requests_tagged", "reconnects_after_close", "onclose_ids_matched", "accept_failure_episodes", "starttls_upgraded_connections", "short_lived_connections"},
+		MinObserved: []string{"requests_tagged", "reconnects_after_close", "onclose_ids_matched", "accept_failure_episodes", "starttls_upgraded_connections", "short_lived_connections", "router_replaced_while_serving"},
 	})
 }
 
@@ -73,7 +73,7 @@ func c09Run(c *Ctx) {
 	if overTLS {
 		stc, ctc = pki.ServerOnly, pki.ClientPlain
 	}
-	srv, err := startSrv(SrvCfg{TLS: stc}, func(m *gldap.Mux) {
+	register := func(m *gldap.Mux) {
 		m.Bind(handler)
 		m.Search(handler)
 		m.Modify(handler)
@@ -83,7 +83,8 @@ func c09Run(c *Ctx) {
 			w.Write(r.NewExtendedResponse(gldap.WithResponseCode(0)))
 			r.StartTLS(pki.ServerOnly)
 		}, gldap.ExtendedOperationStartTLS)
-	})
+	}
+	srv, err := startSrv(SrvCfg{TLS: stc}, register)
 	if err != nil {
 		c.Inconclusive("server start: " + err.Error())
 		return
@@ -189,6 +190,49 @@ func c09Run(c *Ctx) {
 		}(cl)
 	}
 	wg.Wait()
+	// the router is replaced while the server runs (Server.Router may be called at any time): connection IDs belong to
+	// the server, whatever mux happens to route its requests
+	for swap := 0; swap < c.N(2, 10); swap++ {
+		tagged := func(tag string) *Client {
+			kc, err := dialRaw(srv.Addr, ctc)
+			if err != nil {
+				return nil
+			}
+			kc.Send(sber.Message(1, sber.BindRequest(3, []byte(tag), []byte("p")), nil).Encode())
+			if _, err := kc.ReadMsg(patience); err != nil {
+				kc.Close()
+				return nil
+			}
+			connCtr.Add(1)
+			totalConns++
+			return kc
+		}
+		keepTag := fmt.Sprintf("tag=open-across-router-swap-%d", swap)
+		keep := tagged(keepTag)
+		if m2, err := gldap.NewMux(); err == nil {
+			register(m2)
+			if err := srv.S.Router(m2); err != nil {
+				c.Inconclusive("Router: " + err.Error())
+				break
+			}
+		}
+		for k := 0; k < 4; k++ {
+			t := fmt.Sprintf("tag=after-router-swap-%d-%d", swap, k)
+			if kc := tagged(t); kc != nil {
+				kc.Send(sber.Message(2, sber.Search{Base: []byte(t), Scope: 2, Filter: sber.PresentFilter("cn"), Attrs: [][]byte{}}.Node(), nil).Encode())
+				kc.ReadMsg(patience)
+				kc.Close()
+				closedTags <- t
+			}
+		}
+		if keep != nil {
+			keep.Send(sber.Message(2, sber.BindRequest(3, []byte(keepTag), []byte("p")), nil).Encode())
+			keep.ReadMsg(patience)
+			keep.Close()
+			closedTags <- keepTag
+		}
+		c.Count("router_replaced_while_serving", 1)
+	}
 	// connections that are upgraded with StartTLS in the middle: the ID must not change across the upgrade
 	nStartTLS := c.N(30, 400)
 	if overTLS {
